@@ -123,7 +123,7 @@ theorem topCtx_ok {pt : PT} {params : List (String × Rat)} {mm : Option (List (
     exact ⟨rfl, rfl⟩
 
 /-- compile correctness for stage-1 templates, in terms of `create_program` and the denoted pulse -/
-theorem createProgram_rel {pt : PT} (hs : Stage1 pt) (params : List (String × Rat))
+theorem createProgram_rel_basic {pt : PT} (hb : Basic pt) (params : List (String × Rat))
     (mm : Option (List (MName × Option MName))) (cm : List (Chan × Option Chan)) (prog : Loop) (P : Pulse)
     (h1 : createProgram pt params mm cm [] = .ok (some prog)) (h2 : denoteTop pt params mm cm = .ok P)
     (hpos : prog.allPos) :
@@ -156,7 +156,17 @@ theorem createProgram_rel {pt : PT} (hs : Stage1 pt) (params : List (String × R
         rw [hcs] at hpos
         simp only [Loop.allPos, Loop.allPosB, Bool.and_eq_true] at hpos
         exact hpos.2
-  exact (compile_rel hs.basic ctx.scope ctx.mm ctx.cm items P hitems h2 hposl).program hprog hpos
+  exact (compile_rel hb ctx.scope ctx.mm ctx.cm items P hitems h2 hposl).program hprog hpos
+
+theorem createProgram_rel {pt : PT} (hs : Stage1 pt) (params : List (String × Rat))
+    (mm : Option (List (MName × Option MName))) (cm : List (Chan × Option Chan)) (prog : Loop) (P : Pulse)
+    (h1 : createProgram pt params mm cm [] = .ok (some prog)) (h2 : denoteTop pt params mm cm = .ok P)
+    (hpos : prog.allPos) :
+    prog.duration = P.dur ∧
+    (∀ c pl, P.chans.lookup c = some pl → ∀ t, 0 ≤ t → t < P.dur → prog.sample c t = PL.at pl t) ∧
+    prog.windows.Perm P.windows ∧
+    (∀ cs ∈ prog.leafChannels, ∀ x, x ∈ cs ↔ x ∈ P.chanNames) :=
+  createProgram_rel_basic hs.basic params mm cm prog P h1 h2 hpos
 
 /-! Equation lemmas that the evaluation examples in `QP.Props.*` unfold are generated here, so that they are
 not counted as theorems of the property modules by `Audit.lean`. -/
